@@ -733,7 +733,7 @@ def monitor_direct(case, obs):
 
 class C05(Prop):
     id = "C05"
-    props_file = ["Props/C05.v", "Props/C05_Examples.v", "Props/C05_Bridge.v"]
+    props_file = ["Props/C05.v", "Props/C05_Examples.v", "Props/C05_Bridge.v", "Props/C05_BridgeLoop.v"]
     coq_imports = kc.COQ_IMPORTS
     n_quick = 700
     n_thorough = 16000
@@ -745,7 +745,7 @@ class C05(Prop):
                        "late), 45% random script families of kernel_common with condition-heavy weights; non-trivial = at least one "
                        "condition with >= 2 operands and a same-instant coincidence of >= 3 processed events; distinct by hash")
     trusted_base = ["vlib/translate.py (Python ast, fail closed; tables in props/kernel_tie.py) regenerates before every build the translation of "
-                    "Condition.all_events / any_events / _check / _build_value of the tree under test (coq/Gen/Extracted_cond.v); the C05_gen_* theorems (Props/C05_Bridge.v) bridge them to cond_evaluate / cond_check / cond_build of Kernel/Model.v; Condition.__init__, _populate_value and _remove_check_callbacks (loops) are not translated",
+                    "Condition.all_events / any_events / _check / _build_value of the tree under test (coq/Gen/Extracted_cond.v); the C05_gen_* theorems (Props/C05_Bridge.v) bridge them to cond_evaluate / cond_check / cond_build of Kernel/Model.v; the loops of Condition.__init__, _populate_value and _remove_check_callbacks are translated as ONE iteration each (coq/Gen/Extracted_condloops.v), run with fuel and bridged by the C05_gen_* theorems of Props/C05_BridgeLoop.v; the mixed-environment check loop is one whitelisted statement",
                     "kernel harness props/kernel_common.py (real generators on the real Environment), extended in this plugin by an "
                     "independent record of the real objects' public state (triggered/processed/ok/value/defused, Condition._count) "
                     "after every step and construction; Condition.succeed/fail wrapped per instance to see explicit triggers",
@@ -775,6 +775,7 @@ class C05(Prop):
         from vlib import framework as fw
         from props import kernel_tie
         kernel_tie.write_extracted_cond(fw.REPO, fw.COQ)
+        kernel_tie.write_extracted_condloops(fw.REPO, fw.COQ)
 
     def gen_case(self, rng, tier):
         r = rng.random()
